@@ -121,6 +121,12 @@ func Build(name string) *Scenario {
 	}
 	sc.IdleAfter = 3 * time.Second
 	sc.Cfg = vrt.Config{Horizon: 500 * time.Second, DrainTime: 20 * time.Second, NoStarve: true, MaxSteps: 600000}
+	// locks: every mutex / atomic operation of the instrumented packages is
+	// a scheduling point too (interleavings inside Close, Dial, Accept ...)
+	_, sc.Cfg.LockPoints = p["locks"]
+	if sc.Cfg.LockPoints {
+		sc.Cfg.MaxSteps = 3000000
+	}
 	return sc
 }
 
